@@ -131,11 +131,13 @@ func IndexFromFile(ctx context.Context,
 	// don't advance to the next worker in that case.
 	for _, w := range worker {
 		for chunk := range w.results {
+			verifYield("pc.accept", "w", w.offset, "start", chunk.Start, "size", chunk.Size)
 			// Assemble the list of chunks in the index
 			index.Chunks = append(index.Chunks, chunk)
 			pb.Set(int(chunk.Start + chunk.Size))
 			stats.incAccepted()
 		}
+		verifYield("pc.drained", "w", w.offset, "eof", w.eof, "err", w.err != nil)
 		// Done reading all chunks from this worker, check for any errors
 		if w.err != nil {
 			return index, stats, w.err
@@ -176,9 +178,13 @@ type pChunker struct {
 }
 
 func (c *pChunker) start(ctx context.Context) {
+	defer verifYield("pc.closed", "w", c.offset)
 	defer close(c.results)
+	defer verifYield("pc.stopped", "w", c.offset)
 	defer c.stop()
+	defer func() { verifYield("pc.stopping", "w", c.offset, "eof", c.eof, "err", c.err != nil) }()
 	for {
+		verifYield("pc.top", "w", c.offset)
 		select {
 		case <-ctx.Done():
 			c.err = Interrupted{}
@@ -206,12 +212,14 @@ func (c *pChunker) start(ctx context.Context) {
 
 		// Store it in our bucket
 		chunk := IndexChunk{Start: start, Size: uint64(len(b)), ID: id}
+		verifYield("pc.send", "w", c.offset, "start", chunk.Start, "size", chunk.Size, "null", false)
 		c.results <- chunk
 
 		// Check if the next worker already has this chunk, at which point we stop
 		// here and let the next continue
 		if c.next != nil {
 			inSync, zeroes := c.next.syncWith(chunk)
+			verifYield("pc.synced", "w", c.offset, "insync", inSync, "zeroes", zeroes)
 			if inSync {
 				return
 			}
@@ -224,12 +232,14 @@ func (c *pChunker) start(ctx context.Context) {
 				nc := chunk
 				for i := 0; i < numNullChunks; i++ {
 					nc = IndexChunk{Start: nc.Start + nc.Size, Size: uint64(len(c.nullChunk.Data)), ID: c.nullChunk.ID}
+					verifYield("pc.send", "w", c.offset, "start", nc.Start, "size", nc.Size, "null", true)
 					c.results <- nc
 					zeroes -= uint64(len(c.nullChunk.Data))
 				}
 			}
 		}
 
+		verifYield("pc.skipcheck", "w", c.offset)
 		// If the next worker has stopped and has no more chunks in its bucket,
 		// we want to skip that and try to sync with the one after
 		if c.next != nil && !c.next.active() && len(c.next.results) == 0 {
@@ -264,13 +274,16 @@ func (c *pChunker) syncWith(chunk IndexChunk) (bool, uint64) {
 		var ok bool
 		select {
 		case c.sync, ok = <-c.results:
+			verifYield("pc.pop", "from", c.offset, "ok", ok, "start", c.sync.Start, "size", c.sync.Size)
 			if !ok {
 				return false, 0
 			}
 		default: // Nothing in my bucket? Move on
+			verifYield("pc.pop", "from", c.offset, "ok", false, "empty", true)
 			return false, 0
 		}
 	}
+	verifYield("pc.caughtup", "from", c.offset)
 
 	// Did we find a match with the previous worker? If so, the previous worker
 	// should stop and this one will keep going
@@ -288,14 +301,17 @@ func (c *pChunker) syncWith(chunk IndexChunk) (bool, uint64) {
 		// see if there are more in our bucket so we can tell the previous chunker how far to
 		// skip ahead.
 		n = prev.Start + prev.Size - chunk.Start
+		verifYield("pc.nullrun", "from", c.offset, "n", n)
 		for {
 			var ok bool
 			select {
 			case c.sync, ok = <-c.results:
+				verifYield("pc.npop", "from", c.offset, "ok", ok, "start", c.sync.Start, "size", c.sync.Size)
 				if !ok {
 					return false, n
 				}
 			default: // Nothing more in my bucket? Move on
+				verifYield("pc.npop", "from", c.offset, "ok", false, "empty", true)
 				return false, n
 			}
 			if c.sync.ID != c.nullChunk.ID { // Hit the end of the null chunks, stop here
